@@ -1,5 +1,7 @@
 import FluteModel.Drv.Util
 import FluteModel.FdtAbs
+import FluteModel.XmlTok
+import FluteModel.Spec.FdtSpec
 import FluteModel.Sched
 /-
   Line-protocol driver of the abstract FDT model (engine `fdtabs`).  Strings travel as opaque
@@ -109,36 +111,20 @@ def showCacheX : Option CacheX → String
   | some .maxStale => "ms"
   | some (.expires n) => s!"ex{n}"
 
-/-! The sender's serialiser (quick-xml) writes TAB / LF / CR literally.  A conformant XML 1.0 reader (the independent
-    expat reader) then applies end-of-line handling (XML 1.0 §2.11: CR LF and CR become LF) and, in attribute values,
-    attribute-value normalisation (§3.3.3: TAB / LF / CR become a space) - finding fdtabs-1.  These two functions are
-    that reader's view of a string on the UTF-8 bytes of a hex token. -/
-def attrNormBytes : List Nat → List Nat
-  | 13 :: 10 :: r => 32 :: attrNormBytes r
-  | 13 :: r => 32 :: attrNormBytes r
-  | 10 :: r => 32 :: attrNormBytes r
-  | 9 :: r => 32 :: attrNormBytes r
-  | b :: r => b :: attrNormBytes r
-  | [] => []
+/-- the FEC-OTI attributes of a file as an RFC 6726 reader resolves them (File element's when it carries an encoding id,
+    else the FDT-Instance's); scheme-specific info only for the schemes that define one.  WHERE the sender writes the
+    attributes, `Complete` and `FullFDT` are not part of the property and are not printed. -/
+def resolvedAttrs (inst : OtiAttrs) (f : OtiAttrs) : OtiAttrs :=
+  let r := Spec.Fdt.resolveOti inst f
+  if r.enc = some 1 ∨ r.enc = some 2 ∨ r.enc = some 6 then r else { r with ssi := none }
 
-def eol10Bytes : List Nat → List Nat
-  | 13 :: 10 :: r => 10 :: eol10Bytes r
-  | 13 :: r => 10 :: eol10Bytes r
-  | b :: r => b :: eol10Bytes r
-  | [] => []
-
-def onHex (f : List Nat → List Nat) (t : String) : String :=
-  match unhex t with
-  | some bs => hex (f bs)
-  | none => t
-
-def attrRead (t : String) : String := onHex attrNormBytes t
-def textRead10 (t : String) : String := onHex eol10Bytes t
-
-def showAFile (f : AFile) : String :=
-  joinSp ["F", toString f.toi, attrRead f.location, showOptNat f.contentLength, showOptNat f.transferLength,
-    showOptStr (f.contentType.map attrRead), showOptStr f.contentEncoding, showOptStr (f.md5.map attrRead), showAttrs f.oti,
-    showCacheX f.cache, showOptStr (f.etag.map attrRead), showList (f.groups.map textRead10)]
+/-- every string is printed as the abstract instance holds it (= as announced): where the independent reader's value differs
+    only by the XML 1.0 normalisation of literally written TAB / LF / CR (finding fdtabs-1) the harness prints the announced
+    value as well and reports the difference through the oracle -/
+def showAFile (inst : OtiAttrs) (f : AFile) : String :=
+  joinSp ["F", toString f.toi, f.location, showOptNat f.contentLength, showOptNat f.transferLength,
+    showOptStr f.contentType, showOptStr f.contentEncoding, showOptStr f.md5, showAttrs (resolvedAttrs inst f.oti),
+    showCacheX f.cache, showOptStr f.etag, showList f.groups]
 
 def insertBy {α} (key : α → Nat) (x : α) : List α → List α
   | [] => [x]
@@ -148,8 +134,7 @@ def sortBy {α} (key : α → Nat) (xs : List α) : List α := xs.foldr (insertB
 
 def showInst (i : AbsFdt) : String :=
   let fs := sortBy (fun (f : AFile) => f.toi) i.files
-  joinSp (["I", toString i.expires, showOptBool i.complete, showOptBool i.fullFdt, showList (i.groups.map textRead10),
-    showAttrs i.oti, toString fs.length] ++ fs.map showAFile)
+  joinSp (["I", toString i.expires, showList i.groups, toString fs.length] ++ fs.map (showAFile i.oti))
 
 def showScheme : Option Scheme → String
   | none => "~"
@@ -178,21 +163,11 @@ def showRMeta (ftiView : Bool) (toi : Nat) : Option RMeta → String
       (if ftiView then s!"{m.oti.enc}:{m.oti.esl}" else showOti m.oti), showRCache m.cache,
       showOptStr m.etag, showList m.groups]
 
-/-- quick-xml 0.39 `normalize_xml11_eols` on the UTF-8 bytes of an element's text: CR LF, CR NEL, CR, NEL (c2 85)
-    and U+2028 (e2 80 a8) all become LF -/
-def eol11 : List Nat → List Nat
-  | 13 :: 10 :: r => 10 :: eol11 r
-  | 13 :: 194 :: 133 :: r => 10 :: eol11 r
-  | 13 :: r => 10 :: eol11 r
-  | 194 :: 133 :: r => 10 :: eol11 r
-  | 226 :: 128 :: 168 :: r => 10 :: eol11 r
-  | b :: r => b :: eol11 r
-  | [] => []
-
+/- quick-xml's end-of-line normalisation of element text: `XmlTok.eol11` (FluteModel/XmlTok.lean) -/
 /-- the same on a hex token -/
 def textRead (t : String) : String :=
   match unhex t with
-  | some bs => hex (eol11 bs)
+  | some bs => hex (XmlTok.eol11 bs)
   | none => t
 
 /-- flute's receiver view of an instance: expiry passed to `fdt_received` + metadata of every listed file -/
@@ -306,18 +281,8 @@ def applyHints (s : State) (now : Nat) : List Hint → State × List Pub
     let (s2, ps) := applyHints s1 now r
     (s2, popped ++ ps)
 
-/-- `is_xml_str` on the UTF-8 bytes of a hex token: no C0 control other than TAB / LF / CR, not U+FFFE / U+FFFF
-    (surrogates cannot occur in a Rust string; everything else is an XML 1.0 Char) -/
-def xmlOkBytes : List Nat → Bool
-  | 239 :: 191 :: 190 :: _ => false
-  | 239 :: 191 :: 191 :: _ => false
-  | b :: r => (b ≥ 32 || b = 9 || b = 10 || b = 13) && xmlOkBytes r
-  | [] => true
-
-def xmlOkTok (t : String) : Bool :=
-  match unhex t with
-  | some bs => xmlOkBytes bs
-  | none => true
+/- `is_xml_str` on a hex token: `XmlTok.xmlOkTok` (FluteModel/XmlTok.lean; `Lemmas.XmlTok.xmlOkTok_eq`: = every decoded code
+   point is an XML 1.0 Char) -/
 
 /-- the observed admission outcome of the FDT object for this call (`X` = `FileDesc::new` refuses it) -/
 def withAdmit (s : State) (b : Bool) : State := { s with cfg := { s.cfg with fdtFits := fun _ => b } }
@@ -395,7 +360,7 @@ def step (d : DState) (args : List String) : DState × String :=
       if (mode = "f" || mode = "o") && (tw = 16 || tw = 32 || tw = 48 || tw = 64 || tw = 80 || tw = 112) then
         let cfg : Cfg := { mode := if mode = "f" then .fullFdt else .beingTransferred, startId := sid,
                            durationUs := dur, oti := oti, groups := gr, toiBits := tw, toiInit := ti,
-                           xmlOk := xmlOkTok }
+                           xmlOk := XmlTok.xmlOkTok }
         let scfg : Sched.Cfg := { mode := if mode = "f" then .full else .being, fdtCarousel := .delay 200000000,
                                   fdtDuration := dur * 1000, fdtStartId := sid, queues := [(0, 3)] }
         ({ s := some (init cfg), popped := [], sched := some (Sched.init scfg []) }, "ok")
@@ -410,7 +375,7 @@ def step (d : DState) (args : List String) : DState × String :=
   | none => (d, "bad-op")
   | some s =>
   match args with
-  | ["add", loc, ty, cl, tl, ce, md5, etag, gr, cc, oti, mtc, car, data, _flags] =>
+  | ["add", loc, ty, cl, tl, ce, md5, etag, gr, cc, oti, mtc, car, data, _flags, toiHint] =>
     match str? loc, str? ty, nats? [cl, tl, ce, mtc], optStr? md5, optStr? etag with
     | some loc, some ty, some [cl, tl, ce, mtc], some md5, some etag =>
       match optStrList? gr, cc? cc, optOti? oti, car? car, data? data with
@@ -419,7 +384,13 @@ def step (d : DState) (args : List String) : DState × String :=
         let a : ObjAttrs := { location := loc, contentType := ty, contentLength := cl, transferLength := tl,
                               cenc := ce, md5 := md5, etag := etag, groups := gr, cache := cc, oti := oti,
                               maxTransferCount := mtc, carousel := car }
-        let r := add s a
+        -- WHICH TOI an accepted add gets is an input (`toiHint`, the value flute reported; `~` = flute refused): the
+        -- allocator is property C15's.  The model only needs it to be new in the FDT.
+        match (if toiHint = "~" then some none else (nat? toiHint).map some) with
+        | none => (d, "bad-op")
+        | some hint =>
+        if (match hint with | some t => s.files.any (fun f => f.toi = t) | none => false) then (d, "TOI-CLASH") else
+        let r := add (match hint with | some t => { s with nextToi := t } | none => s) a
         -- Sched: the same object with the scheduler's view of it (packets per transfer, count, carousel)
         let sch := match r.2, d.sched, r.1.files.getLast?, carKind? (args.getD 12 "~") with
           | .ok t, some st, some fd, some ck =>
@@ -433,7 +404,7 @@ def step (d : DState) (args : List String) : DState × String :=
           | _, st, _, _ => st
         ({ d with s := some r.1, sched := sch },
           match r.2 with
-          | .ok t => s!"ok {t}"
+          | .ok _ => "ok"
           | .err => "ERR"
           | .panic => "PANIC")
       | _, _, _, _, _ => (d, "bad-op")
@@ -485,13 +456,14 @@ def step (d : DState) (args : List String) : DState × String :=
           else if se ≠ hintSE hs then (none, some ("SCHED-DIVERGE sched=" ++ ",".intercalate se ++ " hints=" ++ ",".intercalate (hintSE hs)))
           else if sp ≠ hp then (none, some ("SCHED-DIVERGE schedpubs=" ++ "|".intercalate sp ++ " model=" ++ "|".intercalate hp))
           else (some st', none)
-      match diverge with
-      | some msg => ({ s := some s1, popped := pops.reverse ++ d.popped, sched := none }, msg)
-      | none =>
+      -- a divergence of the scheduler model is NOT part of the compared line (C10 does not speak about scheduling): it goes,
+      -- after a TAB, to the side channel of `DrvFdtabs.main` (stderr + exit code 3, recorded as a note of the check)
+      let side := match diverge with | some msg => "\t" ++ msg | none => ""
+      let sch := match diverge with | some _ => none | none => sch
+      (fun (r : DState × String) => (r.1, r.2 ++ side))
       ({ s := some s1, popped := pops.reverse ++ d.popped, sched := sch },
-        -- EXT_FDT = 192 | V(4 bit) | instance id (20 bit): `push_fdt` masks the id to 20 bits, V = 2 (RFC 6726)
         if pops.isEmpty then "ok"
-        else "ok pop " ++ ",".intercalate (pops.map (fun p => s!"{p.id % 2^20}v2")))
+        else "ok pop " ++ ",".intercalate (pops.map (fun p => toString (p.id % 2^20))))
     | _, _ => (d, "bad-op")
   | ["inst", id] =>
     match nat? id with
